@@ -14,33 +14,38 @@ theorem hop_table_exact (name : Bytes) : server_isHopByHopHeader name = specHop.
   simp [Bool.or_assoc]
   split <;> simp_all [pure]
 
-/-- the proxy's request filter removes every hop-by-hop field … -/
+/-- the proxy's request filter removes every hop-by-hop field — by name … -/
 theorem filter_removes_hop (h : Hdr) (hwf : RespPath.WF h) (k : Bytes) (hk : server_isHopByHopHeader k = true) :
+    Hdr.values (server_filterRequestHeader h) k = [] :=
+  ReqPathP.filter_values_hop h hwf k hk
+
+/-- … or because the client's `Connection` header nominates it (any field name, any case,
+    among other options) … -/
+theorem filter_removes_nominated (h : Hdr) (hwf : RespPath.WF h) (k : Bytes) (hk : k ∈ Hdr.connDrops h) :
     Hdr.values (server_filterRequestHeader h) k = [] := by
-  rw [ReqPathP.filter_eq_foldl]
-  by_cases hm : k ∈ h.map (·.1)
-  · exact ReqPathP.foldl_removes h h k hwf.2 hk hm
-  · exact ReqPathP.foldl_values_nil h h k (ReqPathP.values_nil_of_not_key h k hm)
+  have _ := hwf   -- not needed: deleting by key works on any header map
+  exact ReqPathP.filter_values_nominated h k hk
 
 /-- … and leaves every other field exactly as it was: same values, same order -/
-theorem filter_keeps_others (h : Hdr) (hwf : RespPath.WF h) (k : Bytes) (hk : server_isHopByHopHeader k = false) :
-    Hdr.values (server_filterRequestHeader h) k = Hdr.values h k := by
-  rw [ReqPathP.filter_eq_foldl]
-  exact ReqPathP.foldl_values_keep h h k hwf.2 hk
+theorem filter_keeps_others (h : Hdr) (hwf : RespPath.WF h) (k : Bytes) (hk : server_isHopByHopHeader k = false)
+    (hn : k ∉ Hdr.connDrops h) :
+    Hdr.values (server_filterRequestHeader h) k = Hdr.values h k :=
+  ReqPathP.filter_values_keep h hwf k hk hn
 
-theorem filter_wf (h : Hdr) (hwf : RespPath.WF h) : RespPath.WF (server_filterRequestHeader h) := by
-  rw [ReqPathP.filter_eq_foldl]
-  exact ReqPathP.foldl_wf h h hwf
+theorem filter_wf (h : Hdr) (hwf : RespPath.WF h) : RespPath.WF (server_filterRequestHeader h) :=
+  ReqPathP.filter_wf h hwf
 
 /-- End to end with the default agent configuration (no identity forwarding, no credential
     stripping): same method, same request target, same Host, same body, and every
-    end-to-end header field the client sent arrives with the same values in the same order. -/
+    end-to-end header field the client sent (not hop-by-hop by name, not nominated in the
+    client's `Connection` header) arrives with the same values in the same order. -/
 theorem req_fidelity (wire rp : ReqM → ReqM) (hw : StdReqSpec wire) (hr : StdReqSpec rp) (q : ReqM) (hwf : RespPath.WF q.hdr)
-    (k : Bytes) (hsent : Hdr.values q.hdr k ≠ []) (hk : server_isHopByHopHeader k = false) (hf : k ∉ framing) :
+    (k : Bytes) (hsent : Hdr.values q.hdr k ≠ []) (hk : server_isHopByHopHeader k = false) (hf : k ∉ framing)
+    (hn : k ∉ Hdr.connDrops q.hdr) :
     let b := backendSees wire rp ⟨false, false, []⟩ q
     b.method = q.method ∧ b.target = q.target ∧ b.host = q.host ∧ b.body = q.body ∧
     Hdr.values b.hdr k = Hdr.values q.hdr k := by
-  have e0 : Hdr.values (proxyFilter q).hdr k = Hdr.values q.hdr k := filter_keeps_others q.hdr hwf k hk
+  have e0 : Hdr.values (proxyFilter q).hdr k = Hdr.values q.hdr k := filter_keeps_others q.hdr hwf k hk hn
   have c0 : Hdr.values (proxyFilter q).hdr Hdr.connKey = [] :=
     filter_removes_hop q.hdr hwf _ ReqPathP.conn_is_hop
   have c1 : Hdr.values (wire (proxyFilter q)).hdr Hdr.connKey = [] :=
@@ -58,7 +63,7 @@ theorem req_fidelity (wire rp : ReqM → ReqM) (hw : StdReqSpec wire) (hr : StdR
   · rw [hr.host, hw.host]; rfl
   · rw [hr.body, hw.body]; rfl
 
-/-- hop-by-hop fields are not forwarded -/
+/-- hop-by-hop fields are not forwarded: neither the standard ones … -/
 theorem hop_not_forwarded (wire rp : ReqM → ReqM) (hw : StdReqSpec wire) (hr : StdReqSpec rp) (cfg : AgentCfg) (q : ReqM)
     (hwf : RespPath.WF q.hdr) (k : Bytes) (hk : server_isHopByHopHeader k = true)
     (hku : k ≠ C09.userKey) :
@@ -79,6 +84,20 @@ theorem hop_not_forwarded (wire rp : ReqM → ReqM) (hw : StdReqSpec wire) (hr :
     · exact e3
   exact hr.drops_hop _ k e2 hk
 
+/-- … nor a field the client nominated in `Connection` — provided nothing on the way supplies a
+    field of that name itself (`StdReqSpec.adds_only_defaults`: the standard-library stages add
+    only defaults such as User-Agent or Accept-Encoding where the client sent none). -/
+theorem nominated_not_forwarded (wire rp : ReqM → ReqM) (hw : StdReqSpec wire) (hr : StdReqSpec rp) (q : ReqM)
+    (hwf : RespPath.WF q.hdr) (k : Bytes) (hk : k ∈ Hdr.connDrops q.hdr)
+    (hd : k ∉ defaults) (hf : k ∉ framing) :
+    Hdr.values (backendSees wire rp ⟨false, false, []⟩ q).hdr k = [] := by
+  have e0 : Hdr.values (proxyFilter q).hdr k = [] := filter_removes_nominated q.hdr hwf k hk
+  have e1 : Hdr.values (wire (proxyFilter q)).hdr k = [] := hw.adds_only_defaults _ k e0 hd hf
+  have ea : agentEdit ⟨false, false, []⟩ (wire (proxyFilter q)) = wire (proxyFilter q) := by
+    simp only [agentEdit, C09.flags_off_identity]
+  simp only [backendSees, ea]
+  exact hr.adds_only_defaults _ k e1 hd hf
+
 /-- T1 (wiring the request-path model assumes): the agent forwards through a Director-mode
     `httputil.NewSingleHostReverseProxy` — whose only header edits are the hop-by-hop removal
     modelled in `ReqPath` — not through a `Rewrite`-mode proxy, which deletes the client's
@@ -88,5 +107,8 @@ theorem agent_forwards_in_director_mode : agent_hostProxyIsDirectorMode = true :
 -- non-vacuity
 example : server_isHopByHopHeader [84,69] = true ∧ server_isHopByHopHeader [67,111,111,107,105,101] = false := by decide
 example : server_filterRequestHeader [([85,112,103,114,97,100,101], [[104]]), ([88,45,65], [[49],[50]])] = [([88,45,65], [[49],[50]])] := by decide
+-- `Connection: close, x-hop` nominates X-Hop: it is removed together with Connection, X-Keep stays
+example : server_filterRequestHeader [(Hdr.connKey, [[99,108,111,115,101,44,32,120,45,104,111,112]]), ([88,45,72,111,112], [[49]]), ([88,45,75,101,101,112], [[50]])] =
+    [([88,45,75,101,101,112], [[50]])] := by decide
 
 end InvProxy.C02
